@@ -422,6 +422,44 @@ def resend_case(ctx, seed, idx):
     ctx.count('resent_messages_ok')
 
 
+def sender_without_descriptor_passing(ctx, seed, idx):
+    """A call with descriptor arguments on a transport that cannot pass descriptors (a TCP bus address): the bytes of a
+    message declaring n descriptors are never written with fewer than n descriptors ahead of them - here: not at all - and
+    the caller is told (an exception or a failed Deferred); plain calls beside it go out as always."""
+    r = random.Random('%s/c20tcp/%s' % (seed, idx))
+    case = {'kind': 'send-tcp', 'idx': idx}
+    peer = clientfix.Peer(unix=False).ready()
+    conn = peer.proto
+    peer.take()
+    ctx.count('evaluations')
+    sig, build, nfd = r.choice([sh for sh in SHAPES if sh[2]])
+    toks = [Tok(0, k) for k in range(nfd)]
+    body = build(iter(toks), 'tcp')
+    before = clientfix.Outcome(conn.callRemote('/a', 'Before', interface='a.b', destination='a.b', signature='s', body=['x']))
+    told = None
+    try:
+        out = clientfix.Outcome(conn.callRemote('/a', 'WithFds', interface='a.b', destination='a.b', signature=sig, body=body,
+                                                **r.choice([{}, {'expectReply': False}, {'timeout': 4.0}])))
+    except Exception as e:
+        told = repr(e)
+        out = None
+    after = clientfix.Outcome(conn.callRemote('/a', 'After', interface='a.b', destination='a.b', signature='s', body=['y']))
+    msgs = peer.take()
+    w = {'sig': sig, 'nfd': nfd, 'raised': told, 'written': [(m.fields.get('member'), len(m.fds), m.fields.get('unix_fds')) for m in msgs]}
+    for m in msgs:
+        if m.fields.get('member') == 'WithFds' and len(m.fds) != nfd:
+            ctx.report('bytes-without-descriptors', 'on a transport without descriptor passing the message declaring %s '
+                       'descriptors was written with %d ahead of it%s' % (m.fields.get('unix_fds'), len(m.fds),
+                                                                          '' if told or (out and out.fired and out.results[0][0] == 'err')
+                                                                          else ' and the caller was told nothing'), w, case)
+            return
+    if [m.fields.get('member') for m in msgs if m.fields.get('member') in ('Before', 'After')] != ['Before', 'After']:
+        ctx.report('send-count', 'plain calls around an unsendable descriptor call: written %r' % (w['written'],), w, case)
+        return
+    ctx.count('non_unix_sender_cases')
+    peer.lose()
+
+
 def run(ctx):
     si, sn = ctx.shard or (0, 1)
     quick = ctx.tier == 'quick'
@@ -520,6 +558,7 @@ def run(ctx):
     for i in range((300 if quick else 6000) // sn):
         two_receivers(ctx, ctx.seed, i * sn + si)
         resend_case(ctx, ctx.seed, i * sn + si)
+        sender_without_descriptor_passing(ctx, ctx.seed, i * sn + si)
         if ctx.stop_early():
             break
     ctx.sample({'messages': [{'sig': 'hh', 'nfd': 2}, {'sig': 's', 'nfd': 0}, {'sig': 'ah', 'nfd': 2}],
@@ -537,6 +576,9 @@ def replay(ctx, rp):
         return
     if case['kind'] == 'two-receivers':
         two_receivers(ctx, seed, case['idx'])
+        return
+    if case['kind'] == 'send-tcp':
+        sender_without_descriptor_passing(ctx, seed, case['idx'])
         return
     if case['kind'] == 'resend':
         resend_case(ctx, seed, case['idx'])
